@@ -146,7 +146,7 @@ func ParseContractFile(path string) (*ContractFile, error) {
 			}
 			switch kind {
 			case "requires", "ensures", "modifies", "invariant", "decreases", "local", "terminates", "inline",
-				"recovers", "nopanic", "fresh", "lemma", "assert", "pure", "split", "opaque", "panics", "trusted", "unroll", "calls_only", "lock", "ghost", "known":
+				"recovers", "nopanic", "fresh", "lemma", "assert", "pure", "split", "appends", "copies", "opaque", "panics", "trusted", "unroll", "calls_only", "lock", "ghost", "known":
 				cl.Kind = kind
 				cl.Text = rest
 				cur.Clauses = append(cur.Clauses, cl)
@@ -367,6 +367,15 @@ func __split(int, ...bool)          {}
 func __forall(lo, hi int, f func(int) bool) bool { return true }
 func __exists(lo, hi int, f func(int) bool) bool { return true }
 func out(w interface{}) []byte      { return nil }
+func seq(x interface{}) []interface{} { return nil }
+func misc(x interface{}) int        { return 0 }
+func __appends(s interface{}, x interface{}) {}
+func __copies(dst interface{}, src interface{}, n int) {}
+func ghostInt(x interface{}, name string) int { return 0 }
+func ghostBool(x interface{}, name string) bool { return false }
+func ghostBytes(x interface{}, name string) []byte { return nil }
+func ghostSeq(x interface{}, name string) []interface{} { return nil }
+func __calls_only(...interface{})   {}
 func all() interface{}              { return nil }
 func held(mu interface{}) bool      { return false }
 func typeIs(x interface{}, name string) bool { return false }
@@ -470,6 +479,18 @@ func (cf *ContractFile) Generate() (string, error) {
 				}
 			case "fresh":
 				stmt = fmt.Sprintf("__fresh(%s)", cl.Text)
+			case "copies":
+				e, err := RewriteExpr(cl.Text)
+				if err != nil {
+					return "", fmt.Errorf("%s:%d: %v", fc.File, cl.Line, err)
+				}
+				stmt = fmt.Sprintf("__copies(%s)", e)
+			case "appends":
+				e, err := RewriteExpr(cl.Text)
+				if err != nil {
+					return "", fmt.Errorf("%s:%d: %v", fc.File, cl.Line, err)
+				}
+				stmt = fmt.Sprintf("__appends(%s)", e)
 			case "split":
 				e, err := RewriteExpr(cl.Text)
 				if err != nil {
